@@ -841,6 +841,13 @@ sendpld_flush(br_ssl_engine_context *rc, int force)
 	size_t xlen;
 	unsigned char *buf;
 
+	/*
+	 * With a shared buffer that currently holds incoming data, there
+	 * is no outgoing payload and the buffer must not be written to.
+	 */
+	if (rc->iomode != BR_IO_OUT && rc->iomode != BR_IO_INOUT) {
+		return;
+	}
 	if (rc->oxa == rc->oxb) {
 		return;
 	}
